@@ -11,7 +11,7 @@ from prosemirror.transform import ReplaceAroundStep, Step, Transform
 
 ID = "C01"
 CORR_MODULE = "Corr.C01"
-LEVEL = "exploration"
+LEVEL = "proof"
 SHARD = 120
 
 
